@@ -125,6 +125,11 @@ def check_timing(model, td, text, fails, eps=EPS):
         if any(type(x) is not TimedNote for x in got):
             fails.append({"clause": "time_notes yields something that is not a TimedNote", "expected": "TimedNote", "observed": repr(got[:1]), "option": oname})
             return
+        if oname == "TAP_TO_FAKE":
+            dflt = list(time_notes(N.NoteData(text), td))
+            if dflt != got:
+                fails.append({"clause": "time_notes without the option does not behave like TAP_TO_FAKE (the documented default)", "expected": len(got), "observed": len(dflt)})
+                return
         gnotes = [N.from_impl(x.note) for x in got]
         wnotes = [n for _, n in want]
         if gnotes != wnotes:
